@@ -191,10 +191,14 @@ class Parser:
                 else: v = self.ident()
                 self.expect("in"); it = self.expr(nostruct=True); b = self.block()
                 stmts.append(("for", v, it, b, ln))
-            elif self.kind() == "id" and p in ("fn", "struct", "impl", "use", "const", "static", "match", "unsafe", "macro_rules", "mod"):
+            elif self.kind() == "id" and p == "unsafe" and self.peek(1) == "{":            # phase 4g: only a skeleton table can give it a reading (effects key `unsafe`)
+                self.next(); b = self.block(); stmts.append(("unsafe", b, ln))
+            elif self.kind() == "id" and p in ("fn", "struct", "impl", "use", "const", "static", "unsafe", "macro_rules", "mod"):
                 self.fail(f"`{p}` inside a function body")
             else:
-                e = self.expr()
+                # a statement that STARTS with `if` / `match` ends with that expression, as in rustc (phase 4g: `if c { panic!() } *dest = x;` was
+                # read as the product `(if ..) * dest`)
+                e = self.primary() if (self.kind() == "id" and p in ("if", "match")) else self.expr()
                 if self.peek() in ASSIGN_OPS and self.kind() == "p":
                     op = self.next(); r = self.expr();
                     if self.peek() != "}": self.expect(";")
@@ -203,7 +207,7 @@ class Parser:
                     stmts.append(("expr", e, ln))
                 elif self.peek() == "}":
                     tail = e
-                elif e[0] in ("if", "iflet", "blockexpr"):
+                elif e[0] in ("if", "iflet", "blockexpr", "match"):     # (`match` as a statement, phase 4g: only skeleton mode `match_stmt` lowers it)
                     tail = e      # block-like expression statement; decided at the next iteration
                 else:
                     self.fail("`;` expected")
@@ -632,6 +636,17 @@ def has_escape(x, in_loop=False):
     if x[0] in ("loop", "while", "for"): return any(has_escape(y, True) for y in x[1:] if isinstance(y, (tuple, list)))
     if x[0] in ("path", "num", "bool"): return False
     return any(has_escape(y, in_loop) for y in x if isinstance(y, (tuple, list)))
+
+
+def has_panic_or_loop(x):
+    """phase 4g (table option `panic_escape`): does a branch contain a `panic!` or a `loop` / `while`?  Such an `if` is lowered like one with a
+    `return` inside: the continuation is duplicated into the branches (a panicking arm needs no merge value; a loop in an arm keeps the
+    function's own continuation)"""
+    if isinstance(x, list): return any(has_panic_or_loop(y) for y in x)
+    if not isinstance(x, tuple) or not x: return False
+    if x[0] in ("panic", "loop", "while"): return True
+    if x[0] in ("path", "num", "bool"): return False
+    return any(has_panic_or_loop(y) for y in x if isinstance(y, (tuple, list)))
 
 
 def lvalue_root(e):
@@ -2057,7 +2072,7 @@ class FnLower2(FnLower):
         after = self.live_rest(stmts, i + 1, tail, k)
         c = self.cond(e[1], env, ops)
         eb = e[3] if e[3] is not None else ([], None)
-        if has_escape([e[2][0], e[2][1], eb[0], eb[1]]):
+        if has_escape([e[2][0], e[2][1], eb[0], eb[1]]) or (self.opts.get("panic_escape") and has_panic_or_loop([e[2][0], e[2][1], eb[0], eb[1]])):
             rest = K(lambda env2, _v, ops2: self.stmts(stmts, i + 1, tail, env2, ops2, k, nested), after, toplevel=k.toplevel)
             a = self.block_code(e[2], dict_copy(env), rest); b = self.block_code(eb, dict_copy(env), rest)
             return ("if", c, a, b)
@@ -2370,8 +2385,9 @@ class Skeleton:
         if e[0] == "blockexpr": return ("blockexpr", self.block(e[1]))
         if e[0] == "match": return ("match", self.expr(e[1]), [(pats, self.expr(b)) for pats, b in e[2]])
         c = self.canon(e)
-        if c is not None and c in self.sk.get("exprs", {}):
-            self.used.add(c); return ("paren", parse_snippet(self.sk["exprs"][c], "expr", self.fn["name"]))
+        key, rep = self.lookup("exprs", c)
+        if key is not None:
+            self.used.add(key); return ("paren", parse_snippet(rep, "expr", self.fn["name"]))
         if e[0] in ("num", "bool", "float", "path", "panic"): return e
         return tuple(self.expr(x) if isinstance(x, tuple) else [self.expr(y) if isinstance(y, tuple) else y for y in x] if isinstance(x, list) else x for x in e)
 
@@ -2390,13 +2406,26 @@ class Skeleton:
                 out.append(("let", s[1], s[2], s[3], self.expr(s[4]), s[5])); continue
             if s[0] in ("expr", "assign"):
                 c = self.canon(strip_paren(s[1])) if s[0] == "expr" else self.canon(s)
-                if c is not None and c in self.sk.get("effects", {}):
-                    self.used.add(c); out += parse_snippet(self.sk["effects"][c], "stmts", self.fn["name"]); continue
+                key, rep = self.lookup("effects", c)
+                if key is not None:
+                    self.used.add(key); out += parse_snippet(rep, "stmts", self.fn["name"]); continue
+            if s[0] == "for" and isinstance(s[1], str):                      # phase 4g: a `for` loop the table declares to be a pure data effect
+                key, rep = self.lookup("effects", self.for_key(s))
+                if key is not None:
+                    self.used.add(key); out += parse_snippet(rep, "stmts", self.fn["name"]); continue
+            if s[0] == "unsafe" and "unsafe" in self.sk.get("effects", {}):      # phase 4g: an `unsafe { .. }` block the table declares to be a pure data effect
+                self.used.add("unsafe"); out += parse_snippet(self.sk["effects"]["unsafe"], "stmts", self.fn["name"]); continue
+            if s[0] == "expr" and strip_paren(s[1])[0] == "match" and self.sk.get("match_stmt"):      # phase 4g: `match` in statement / tail position
+                out.append(("expr", self.match_chain(strip_paren(s[1]), s), s[2] if len(s) > 2 and not istail else None)); continue
             if s[0] == "expr":
                 e2 = self.expr(s[1])
                 if istail: newtail = e2
                 else: out.append(("expr", e2, s[2] if len(s) > 2 else None))
             elif s[0] == "assign": out.append(("assign", self.expr(s[1]), s[2], self.expr(s[3]), s[4]))
+            elif s[0] == "return" and s[1] is None and self.sk.get("epilogue"):       # phase 4g: a bare `return;` leaves through the skeleton's epilogue
+                epi = parse_snippet(self.sk["epilogue"], "stmts", self.fn["name"])
+                if epi and epi[-1][0] == "expr" and epi[-1][2] is None: out += epi[:-1] + [("return", epi[-1][1], s[2])]
+                else: out += epi + [("return", None, s[2])]
             elif s[0] == "return": out.append(("return", None if s[1] is None else self.expr(s[1]), s[2]))
             elif s[0] == "loop": out.append(("loop", self.block(s[1]), s[2]))
             elif s[0] == "while": out.append(("while", self.expr(s[1]), self.block(s[2]), s[3]))
@@ -2404,6 +2433,55 @@ class Skeleton:
             else: out.append(s)
         self.env = saved
         return (out, newtail)
+
+    def lookup(self, table, c):
+        """phase 4g: table entry for the canonical text `c`: the exact key, else a key with `$name` wildcards (each stands for ONE identifier - an
+        ordinary local of the function, so that renaming it changes nothing); returns (key, replacement with the wildcards substituted)"""
+        tab = self.sk.get(table, {})
+        if c is None: return None, None
+        if c in tab: return c, tab[c]
+        for key, rep in tab.items():
+            if "$" not in key: continue
+            rx = re.sub(r"\\\$(\w+)", lambda m: "(?P<%s>[A-Za-z_][A-Za-z0-9_]*)" % m.group(1), re.escape(key))
+            m = re.fullmatch(rx, c)
+            if m:
+                for n, v in m.groupdict().items(): rep = re.sub(r"\$" + n + r"\b", v, rep)
+                return key, rep
+        return None, None
+
+    def for_key(self, s):
+        """canonical header `for v in lo..hi` of a `for` statement (None if the range is not canonical)"""
+        it = strip_paren(s[2])
+        if it[0] != "range" or it[1] is None or it[2] is None or it[3]: return None
+        lo, hi = self.canon(strip_paren(it[1])) if strip_paren(it[1])[0] != "num" else str(strip_paren(it[1])[1]), self.canon(strip_paren(it[2])) if strip_paren(it[2])[0] != "num" else str(strip_paren(it[2])[1])
+        if lo is None or hi is None:
+            def txt(x):
+                x = strip_paren(x)
+                return x[1][0] if x[0] == "path" and len(x[1]) == 1 else None
+            lo = lo if lo is not None else txt(it[1]); hi = hi if hi is not None else txt(it[2])
+        return None if lo is None or hi is None else f"for {s[1]} in {lo}..{hi}"
+
+    def match_chain(self, e, s):
+        """statement / tail `match S { A | B => x, C => y, _ => z }` with enum-path patterns -> `if S == A || S == B { x } else if S == C { y } else { z }`.
+        The scrutinee must be rewritten by the table to a plain pseudo-variable (it is mentioned once per pattern)."""
+        scr = self.expr(e[1]); s0 = strip_paren(scr)
+        if not (s0[0] == "path" and len(s0[1]) == 1): self.lo.fail("statement `match`: the scrutinee is not mapped to a pseudo-variable by the skeleton table")
+        arms = e[2]; chain = None
+        for j, (pats, body) in reversed(list(enumerate(arms))):
+            wild = any(p[0] == "wild" for p in pats)
+            if wild and j != len(arms) - 1: self.lo.fail("`_` arm that is not the last one")
+            body = strip_paren(body)
+            blk = self.block(body[1]) if body[0] == "blockexpr" else self.block(([], body))
+            if chain is None:
+                if not wild: self.lo.fail("statement `match` without a final `_` arm")
+                chain = blk; continue
+            cond = None
+            for p in pats:
+                if p[0] != "path": self.lo.fail(f"match pattern {p}")
+                c1 = ("bin", "==", s0, ("path", p[1]))
+                cond = c1 if cond is None else ("bin", "||", cond, c1)
+            chain = ([], ("if", cond, blk, chain))
+        return chain[1] if not chain[0] and chain[1] is not None else ("blockexpr", chain)
 
     def run(self):
         sig = parse_snippet(self.sk["sig"] + " {}", "fn", self.fn["name"])
@@ -2413,7 +2491,8 @@ class Skeleton:
         stmts = pro + body[0] + ([("expr", body[1], None)] if body[1] is not None else [])
         tail = None
         if epi and epi[-1][0] == "expr" and epi[-1][2] is None: tail = epi[-1][1]; epi = epi[:-1]
-        unused = [c for c in list(self.sk.get("handles", [])) + list(self.sk.get("exprs", {})) + list(self.sk.get("effects", {})) if c not in self.used]
+        unused = [c for c in list(self.sk.get("handles", [])) + list(self.sk.get("exprs", {})) + list(self.sk.get("effects", {}))
+                  if c not in self.used and c not in self.sk.get("optional", [])]      # `optional` (phase 4g): readings of sibling calls that need not occur
         if unused: self.lo.fail(f"skeleton table entries never matched: {unused}")
         new = dict(self.fn); new["params"] = sig["params"]; new["ret"] = sig["ret"]; new["body"] = (stmts + epi, tail)
         new["selfty"] = None
@@ -2560,6 +2639,8 @@ class FnTranslate(FnLower2):
                 params.append(("wi", "i32")); env[pn] = Var("w", lean, "i32", rust=pn); self.binders.append(f"({lean} : Int)")
             elif pt[0] == "name" and pt[1] == "bool":
                 params.append(("b",)); env[pn] = Var("b", lean, "bool", rust=pn); self.binders.append(f"({lean} : Bool)")
+            elif pt[0] == "name" and pt[1] in self.tr.enums:        # phase 4g: a registered enum by value (skeleton pseudo-parameters `scheme: SchemeType`)
+                params.append(("enum", pt[1])); env[pn] = Var("val", lean, ("enum", pt[1]), rust=pn); self.binders.append(f"({lean} : {self.tr.enums[pt[1]]['lean']})")
             elif self.abs and (pt == ("name", "f64") or (pt[0] == "ref" and not pt[1] and pt[2][0] == "name" and pt[2][1] in self.opts.get("opaque", []))
                                or (pt[0] == "ref" and not pt[1] and pt[2][0] == "arr" and pt[2][1][0] == "name" and pt[2][1][1] in self.opts.get("opaque", []))):
                 # an opaque object: usable only inside the accessor expressions the table abstracts
@@ -3368,29 +3449,30 @@ SK_TRANSLATE = {
            "valid1: bool, valid2: bool, same_parms: bool, ntt_differ: bool, same_scale: bool, moduli: &[Modulus], t: &Modulus, n: usize) -> (usize, u64)",
     "prologue": "let mut size1 = size1_in; let mut cf1 = cf1_in;", "epilogue": "(size1, cf1)",
     "handles": [CTX1, CTX1 + ".parms()"],
+    # (phase 4g: the ordinary locals of the function are `$name` wildcards, so that renaming them changes nothing)
     "exprs": {"ciphertext1.is_ntt_form() != ciphertext2.is_ntt_form()": "ntt_differ",
               CTX1 + ".parms().coeff_modulus()": "moduli", CTX1 + ".parms().plain_modulus()": "t", CTX1 + ".parms().poly_modulus_degree()": "n",
               "ciphertext1.size()": "size1", "ciphertext2.size()": "size2",
               "ciphertext1.correction_factor() != ciphertext2.correction_factor()": "cf1 != cf2",
-              "Self::balance_correction_factors(ciphertext1.correction_factor(), ciphertext2.correction_factor(), plain_modulus)":
-                  "Evaluator::balance_correction_factors(cf1, cf2, plain_modulus)",
+              "Self::balance_correction_factors(ciphertext1.correction_factor(), ciphertext2.correction_factor(), $pm)":
+                  "Evaluator::balance_correction_factors(cf1, cf2, $pm)",
               "ciphertext1.data_mut()": "d1", "ciphertext2.data()": "d2", "ciphertext2.clone()": "d2.to_vec()",
-              "ciphertext2_copy.data_mut()": "ciphertext2_copy",
-              "ciphertext1.polys_mut(ciphertext1_size, ciphertext2_size)": "&mut d1[ciphertext1_size * %s..ciphertext2_size * %s]" % (PLEN, PLEN)},
+              "$c.data_mut()": "$c",
+              "ciphertext1.polys_mut($a, $b)": "&mut d1[$a * %s..$b * %s]" % (PLEN, PLEN)},
     "effects": {"self.check_ciphertext(ciphertext1)": "assert!(valid1);", "self.check_ciphertext(ciphertext2)": "assert!(valid2);",
                 "self.match_parms_id(ciphertext1, ciphertext2)": "assert!(same_parms);",
                 "self.match_scale(ciphertext1, ciphertext2)": "assert!(same_scale);",
-                "ciphertext1.resize(&self.context, " + CTX1 + ".parms_id(), max_count)":
-                    "assert!(!((max_count < HE_CIPHERTEXT_SIZE_MIN && max_count != 0) || max_count > HE_CIPHERTEXT_SIZE_MAX)); "
-                    "d1.resize(max_count * n * moduli.len(), 0); size1 = max_count;",
-                "ciphertext1.set_correction_factor(factors.0)": "cf1 = factors.0;",
-                "ciphertext2_copy.set_correction_factor(factors.0)": "",
-                "ciphertext1.polys_mut(ciphertext1_size, ciphertext2_size).copy_from_slice(ciphertext2.polys(ciphertext1_size, ciphertext2_size))":
-                    "d1[ciphertext1_size * %s..ciphertext2_size * %s].copy_from_slice(&d2[ciphertext1_size * %s..ciphertext2_size * %s]);" % (PLEN, PLEN, PLEN, PLEN)}}
-REC = "self.translate_inplace(ciphertext1, &ciphertext2_copy, is_subtract)"
+                "ciphertext1.resize(&self.context, " + CTX1 + ".parms_id(), $m)":
+                    "assert!(!(($m < HE_CIPHERTEXT_SIZE_MIN && $m != 0) || $m > HE_CIPHERTEXT_SIZE_MAX)); "
+                    "d1.resize($m * n * moduli.len(), 0); size1 = $m;",
+                "ciphertext1.set_correction_factor($f.0)": "cf1 = $f.0;",
+                "$c.set_correction_factor($f.0)": "",
+                "ciphertext1.polys_mut($a, $b).copy_from_slice(ciphertext2.polys($a2, $b2))":
+                    "d1[$a * %s..$b * %s].copy_from_slice(&d2[$a2 * %s..$b2 * %s]);" % (PLEN, PLEN, PLEN, PLEN)}}
+REC = "self.translate_inplace(ciphertext1, &$c, is_subtract)"
 SK_TRANSLATE_EQ = dict(SK_TRANSLATE, effects=dict(SK_TRANSLATE["effects"], **{REC: "panic!();"}))      # recursion depth 2: cut off (unreachable: the factors are equal there)
 SK_TRANSLATE_TOP = dict(SK_TRANSLATE, effects=dict(SK_TRANSLATE["effects"], **{REC:
-    "let r = translate_inplace_eq(d1, size1, cf1, &ciphertext2_copy, size2, cf1, is_subtract, valid1, valid2, same_parms, ntt_differ, same_scale, moduli, t, n); "
+    "let r = translate_inplace_eq(d1, size1, cf1, &$c, size2, cf1, is_subtract, valid1, valid2, same_parms, ntt_differ, same_scale, moduli, t, n); "
     "size1 = r.0; cf1 = r.1;"}))
 CTXN = "self.get_context_data(ciphertext.parms_id())"
 SK_NEGATE = {"sig": "fn negate_inplace(d: &mut Vec<u64>, size: usize, valid: bool, moduli: &[Modulus], n: usize)",
@@ -3482,6 +3564,176 @@ FILES += [
         {"file": UT, "fn": "inverse_ntt_negacyclic_harvey", "impl": "NTTTables", "model": "intt"},
     ]}),
 ]
+
+
+# ------------------------------------------------------------------------------------------------------------------------------------
+# Phase 4g (worker L): evaluator-level DECISION skeletons (C05 level walk, C03 scale bookkeeping, C06 multiply_plain dispatch).
+# All in skeleton mode.  New skeleton-table keys: `match_stmt` (a `match` in statement / tail position becomes an `if` chain on `==`;
+# the scrutinee must be mapped to a pseudo-variable), `optional` (entries that need not occur: TRUSTED readings of sibling calls a
+# variant of the function may use instead), effects keyed `for v in lo..hi` (a `for` loop declared to be a pure data effect: its body is
+# not examined).  Table option `panic_escape`: an `if` with a `panic!` / loop in a branch is lowered with the continuation duplicated.
+# TRUSTED readings (C05): levels are chain indices; `last_parms_id() == x.parms_id()` <=> chain index 0; `first_context_data()...scheme()` is
+# the context's scheme; one `mod_switch_scale_to_next_internal` / `mod_switch_drop_to_next_internal` / `rescale_to_next_inplace` moves one
+# index down (or panics - the internal routines are tied separately); the result is the TRACE of (routine code, chain index reached).
+FIRST_SCHEME = "self.context.first_context_data().unwrap().parms().scheme()"
+OP_SCALE, OP_DROP = 1, 2         # trace codes: which internal routine runs
+SK_SWITCH_NEXT = {
+    "sig": "fn mod_switch_to_next(valid: bool, cur: usize, scheme: SchemeType) -> Vec<usize>",
+    "prologue": "let mut trace = vec![];", "epilogue": "trace", "match_stmt": True,
+    "exprs": {"self.context.last_parms_id() == encrypted.parms_id()": "cur == 0", FIRST_SCHEME: "scheme"},
+    "effects": {"self.check_ciphertext(encrypted)": "assert!(valid);",
+                "self.mod_switch_scale_to_next_internal(encrypted, destination)": "trace.push(%d); trace.push(cur - 1);" % OP_SCALE,
+                "self.mod_switch_drop_to_next_internal(encrypted, destination)": "trace.push(%d); trace.push(cur - 1);" % OP_DROP}}
+SK_RESCALE_NEXT = dict(SK_SWITCH_NEXT, sig="fn rescale_to_next(valid: bool, cur: usize, scheme: SchemeType) -> Vec<usize>",
+    effects={k: v for k, v in SK_SWITCH_NEXT["effects"].items() if "drop" not in k})
+SK_RESCALE_TO = {
+    "sig": "fn rescale_to(valid: bool, cur0: usize, tgt: usize, scheme: SchemeType) -> Vec<usize>",
+    "prologue": "let mut cur = cur0; let mut trace = vec![];", "epilogue": "trace", "match_stmt": True,
+    "handles": ["self.get_context_data(encrypted.parms_id())", "self.get_context_data(parms_id)", "destination.clone()"],
+    "exprs": {"self.get_context_data(encrypted.parms_id()).chain_index()": "cur", "self.get_context_data(parms_id).chain_index()": "tgt",
+              FIRST_SCHEME: "scheme", "destination.parms_id() != parms_id": "cur != tgt"},
+    "effects": {"self.check_ciphertext(encrypted)": "assert!(valid);",
+                "*destination = encrypted.clone()": "",
+                "self.mod_switch_scale_to_next_internal(&destination.clone(), destination)": "cur = cur - 1; trace.push(cur);",
+                # reading of the public one-step form (checks the ciphertext, refuses the last level and every scheme but CKKS, then one step down)
+                "self.rescale_to_next_inplace(destination)": "assert!(valid); assert!(cur != 0); assert!(scheme == SchemeType::CKKS); cur = cur - 1; trace.push(cur);"},
+    "optional": ["self.rescale_to_next_inplace(destination)", "destination.clone()", "self.mod_switch_scale_to_next_internal(&destination.clone(), destination)", FIRST_SCHEME]}
+# `mod_switch_drop_to_next_internal` (CKKS `mod_switch_to_next`): the refusals; the scale must fit the level the ciphertext ARRIVES at.
+# `ok_cur` / `ok_next` = `is_scale_within_bounds(encrypted.scale(), <current / next level's context data>)` (that function is tied in
+# Gen/ValidFns.lean; the theorem instantiates the two Booleans with it at the two levels' bit counts).
+CTXE = "self.get_context_data(encrypted.parms_id())"
+SK_DROP_NEXT = {
+    "sig": "fn mod_switch_drop_to_next_internal(scheme: SchemeType, ntt: bool, has_next: bool, ok_cur: bool, ok_next: bool) -> usize",
+    "epilogue": "1",
+    "handles": [CTXE, CTXE + ".parms()", CTXE + ".next_context_data()", CTXE + ".next_context_data().unwrap()", CTXE + ".next_context_data().unwrap().parms()",
+                "encrypted.size()", CTXE + ".next_context_data().unwrap().parms().poly_modulus_degree()", CTXE + ".next_context_data().unwrap().parms().coeff_modulus().len()"],
+    "exprs": {CTXE + ".parms().scheme()": "scheme", "encrypted.is_ntt_form()": "ntt", CTXE + ".next_context_data().is_none()": "!has_next",
+              "Self::is_scale_within_bounds(encrypted.scale(), &%s.next_context_data().unwrap())" % CTXE: "ok_next",
+              "Self::is_scale_within_bounds(encrypted.scale(), &%s)" % CTXE: "ok_cur"},
+    "effects": {"destination.resize(&self.context, %s.next_context_data().unwrap().parms_id(), encrypted.size())" % CTXE: "",
+                "for $i in 0..encrypted.size()": "",
+                "destination.set_is_ntt_form(encrypted.is_ntt_form())": "", "destination.set_scale(encrypted.scale())": "",
+                "destination.set_correction_factor(encrypted.correction_factor())": ""},
+    "optional": ["Self::is_scale_within_bounds(encrypted.scale(), &%s)" % CTXE,
+                 "Self::is_scale_within_bounds(encrypted.scale(), &%s.next_context_data().unwrap())" % CTXE]}
+TABLE_EVAL += [
+    {"file": EV, "fn": "mod_switch_to_next", "impl": "Evaluator", "model": "modSwitchToNextPlan (Model/Evaluator.lean)", "skeleton": SK_SWITCH_NEXT, "panic_escape": True},
+    {"file": EV, "fn": "rescale_to_next", "impl": "Evaluator", "model": "rescaleToNextPlan", "skeleton": SK_RESCALE_NEXT, "panic_escape": True},
+    {"file": EV, "fn": "rescale_to", "impl": "Evaluator", "model": "rescaleToPlan = switchSteps for CKKS", "skeleton": SK_RESCALE_TO, "panic_escape": True,
+     "loops": [{"fuel": WALK_FUEL, "exhausted": "error"}]},
+    {"file": EV, "fn": "mod_switch_drop_to_next_internal", "impl": "Evaluator", "model": "modSwitchDropDecision", "skeleton": SK_DROP_NEXT, "panic_escape": True},
+]
+
+# --- C03 / C06 (phase 4g): CKKS scale bookkeeping and `multiply_plain`.  Scales are floats (opaque): the skeletons track WHICH scale the
+# ciphertext's scale slot holds (`sc`: 0 = the operand's own scale, +1 for every `set_scale(own * other)`), and take as Boolean inputs
+# `is_scale_within_bounds(<own scale>, <the operand's level>)` (`ok_own`) and `is_scale_within_bounds(<product>, <the operand's level>)`
+# (`ok_prod`); a check against the FIRST level's context data is a different input (`ok_prod_first`, optional reading).
+def _scale_ok(ct, ctx): return "Self::is_scale_within_bounds(%s.scale(), &%s)" % (ct, ctx)
+SC_OK = "(if sc == 0 { ok_own } else { ok_prod })"
+SC_OK_FIRST = "(if sc == 0 { ok_own_first } else { ok_prod_first })"
+FIRSTCD = "self.context.first_context_data().unwrap()"
+RESIZE_READING = "assert!(!(($dest < HE_CIPHERTEXT_SIZE_MIN && $dest != 0) || $dest > HE_CIPHERTEXT_SIZE_MAX)); size1 = $dest;"
+CTXM = "self.get_context_data(encrypted1.parms_id())"
+SK_CKKS_MUL = {
+    "sig": "fn ckks_multiply(ntt1: bool, ntt2: bool, size1_in: usize, size2: usize, n: usize, k: usize, ok_own: bool, ok_prod: bool, "
+           "ok_own_first: bool, ok_prod_first: bool) -> (usize, usize)",
+    "prologue": "let mut size1 = size1_in; let mut sc: usize = 0;", "epilogue": "(size1, sc)",
+    "handles": [CTXM, CTXM + ".parms()", CTXM + ".parms().coeff_modulus()"],
+    "exprs": {"encrypted1.is_ntt_form()": "ntt1", "encrypted2.is_ntt_form()": "ntt2", CTXM + ".parms().poly_modulus_degree()": "n",
+              CTXM + ".parms().coeff_modulus().len()": "k", "encrypted1.size()": "size1", "encrypted2.size()": "size2",
+              _scale_ok("encrypted1", CTXM): SC_OK, _scale_ok("encrypted1", FIRSTCD): SC_OK_FIRST},
+    "effects": {"encrypted1.resize(&self.context, %s.parms_id(), $dest)" % CTXM: RESIZE_READING,
+                "for $i in 0..$n": "", "encrypted1.data_mut().copy_from_slice(&$temp)": "",
+                "encrypted1.set_scale(encrypted1.scale() * encrypted2.scale())": "sc = sc + 1;"},
+    "optional": [_scale_ok("encrypted1", CTXM), _scale_ok("encrypted1", FIRSTCD)]}
+CTXS = "self.get_context_data(encrypted.parms_id())"
+SK_CKKS_SQ = {
+    "sig": "fn ckks_square(ntt: bool, size1_in: usize, n: usize, k: usize, ok_own: bool, ok_prod: bool, ok_own_first: bool, ok_prod_first: bool) -> (usize, usize)",
+    "prologue": "let mut size1 = size1_in; let mut sc: usize = 0;", "epilogue": "(size1, sc)",
+    "handles": [CTXS, CTXS + ".parms()", CTXS + ".parms().coeff_modulus()"],
+    "exprs": {"encrypted.is_ntt_form()": "ntt", CTXS + ".parms().poly_modulus_degree()": "n", CTXS + ".parms().coeff_modulus().len()": "k",
+              "encrypted.size()": "size1", _scale_ok("encrypted", CTXS): SC_OK, _scale_ok("encrypted", FIRSTCD): SC_OK_FIRST},
+    "effects": {"self.ckks_multiply(encrypted, &encrypted.clone())":
+                    "let r = ckks_multiply_sk(ntt, ntt, size1, size1, n, k, ok_own, ok_prod, ok_own_first, ok_prod_first); size1 = r.0; sc = r.1;",
+                "encrypted.resize(&self.context, %s.parms_id(), $dest)" % CTXS: RESIZE_READING,
+                "unsafe": "", "encrypted.set_scale(encrypted.scale() * encrypted.scale())": "sc = sc + 1;"},
+    "optional": [_scale_ok("encrypted", CTXS), _scale_ok("encrypted", FIRSTCD)]}
+# `multiply_plain_ntt` on the FLAT buffers (data and bookkeeping): `poly_mut(i)` = `&mut data[i*d..(i+1)*d]`, d = degree * moduli.len() (src/text.rs)
+CTXU = "self.context.get_context_data(encrypted.parms_id()).unwrap()"
+SK_MUL_PLAIN_NTT = {
+    "sig": "fn multiply_plain_ntt(d: &mut Vec<u64>, size: usize, pd: &[u64], plain_ntt: bool, same_parms: bool, moduli: &[Modulus], n: usize, "
+           "scheme: SchemeType, ok_own: bool, ok_prod: bool) -> usize",
+    "prologue": "let mut sc: usize = 0;", "epilogue": "sc",
+    "handles": [CTXU, CTXU + ".parms()"],
+    "exprs": {"plain.is_ntt_form()": "plain_ntt", "encrypted.parms_id() != plain.parms_id()": "!same_parms",
+              CTXU + ".parms().coeff_modulus()": "moduli", CTXU + ".parms().poly_modulus_degree()": "n", "encrypted.size()": "size",
+              "encrypted.poly_mut($i)": "&mut d[$i * %s..($i + 1) * %s]" % (PLEN, PLEN), "plain.data()": "pd",
+              CTXU + ".parms().scheme()": "scheme", _scale_ok("encrypted", CTXU): SC_OK},
+    "effects": {"encrypted.set_scale(encrypted.scale() * plain.scale())": "sc = sc + 1;"}}
+# `multiply_plain_inplace`: the PLAN (which routines run, in which order) for the four representation combinations
+P_MUL_NTT, P_MUL_NORMAL, P_PLAIN_TO_NTT, P_CT_TO_NTT, P_CT_FROM_NTT, P_RAW_NTT, P_RAW_NTT_LAZY, P_RAW_INTT, P_RAW_INTT_LAZY = 1, 2, 3, 4, 5, 6, 7, 8, 9
+def _raw(fn): return "polymod::%s(encrypted.data_mut(), encrypted.size(), %s.parms().poly_modulus_degree(), %s.small_ntt_tables())" % (fn, CTXS, CTXS)
+SK_MUL_PLAIN = {
+    "sig": "fn multiply_plain_inplace(valid_ct: bool, valid_pt: bool, ct_ntt: bool, pt_ntt: bool) -> Vec<usize>",
+    "prologue": "let mut plan = vec![];", "epilogue": "plan",
+    "handles": ["plain.clone()", CTXS, CTXS + ".parms().poly_modulus_degree()", CTXS + ".small_ntt_tables()", "encrypted.size()"],
+    "exprs": {"encrypted.is_ntt_form()": "ct_ntt", "plain.is_ntt_form()": "pt_ntt"},
+    "effects": {"self.check_ciphertext(encrypted)": "assert!(valid_ct);", "self.check_plaintext(plain)": "assert!(valid_pt);",
+                "self.multiply_plain_ntt(encrypted, plain)": "plan.push(%d);" % P_MUL_NTT,
+                "self.multiply_plain_normal(encrypted, plain)": "plan.push(%d);" % P_MUL_NORMAL,
+                "self.transform_plain_to_ntt_inplace(&plain.clone(), encrypted.parms_id())": "plan.push(%d);" % P_PLAIN_TO_NTT,
+                "self.multiply_plain_ntt(encrypted, &plain.clone())": "plan.push(%d);" % P_MUL_NTT,
+                "self.transform_to_ntt_inplace(encrypted)": "plan.push(%d);" % P_CT_TO_NTT,
+                "self.transform_from_ntt_inplace(encrypted)": "plan.push(%d);" % P_CT_FROM_NTT,
+                # readings of the raw kernels a variant may call instead of the checked transforms (no validity check, lazy = result only < 2q)
+                _raw("ntt_ps"): "plan.push(%d);" % P_RAW_NTT, _raw("ntt_lazy_ps"): "plan.push(%d);" % P_RAW_NTT_LAZY,
+                _raw("intt_ps"): "plan.push(%d);" % P_RAW_INTT, _raw("intt_lazy_ps"): "plan.push(%d);" % P_RAW_INTT_LAZY},
+    "optional": [CTXS, CTXS + ".parms().poly_modulus_degree()", CTXS + ".small_ntt_tables()", "encrypted.size()",
+                 _raw("ntt_ps"), _raw("ntt_lazy_ps"), _raw("intt_ps"), _raw("intt_lazy_ps"),
+                 "self.transform_to_ntt_inplace(encrypted)", "self.transform_from_ntt_inplace(encrypted)"]}
+TABLE_EVALCT += [
+    {"file": EV, "fn": "ckks_multiply", "impl": "Evaluator", "lean": "ckks_multiply_sk", "register_as": "ckks_multiply_sk", "model": "ckksProductBookkeeping",
+     "skeleton": SK_CKKS_MUL, "consts": CSZ, "panic_escape": True},
+    {"file": EV, "fn": "ckks_square", "impl": "Evaluator", "lean": "ckks_square_sk", "model": "ckksProductBookkeeping", "skeleton": SK_CKKS_SQ, "consts": CSZ,
+     "panic_escape": True},
+    {"file": EV, "fn": "multiply_plain_ntt", "impl": "Evaluator", "lean": "ct_multiply_plain_ntt", "model": "ctMultiplyPlainNtt + scale rule", "skeleton": SK_MUL_PLAIN_NTT,
+     "panic_escape": True},
+    {"file": EV, "fn": "multiply_plain_inplace", "impl": "Evaluator", "lean": "ct_multiply_plain_plan", "model": "multiplyPlainPlan", "skeleton": SK_MUL_PLAIN,
+     "panic_escape": True},
+]
+# `multiply_plain_normal` (coefficient-form operands): the ROUTE (monomial shortcut vs generic NTT route, fast plain lift or not) and the CKKS
+# scale rule at both exits, as a plan.  The data steps are codes (TRUSTED reading: each listed call / loop only touches the data):
+# 10 add_uint_u64 (lift one coefficient), 11 RNS decompose, 12 negacyclic_multiply_mononomials_inplace_ps (per-modulus monomial),
+# 13 negacyclic_multiply_mononomial_inplace_ps, 20 lift loop (multi-precision), 21 decompose_array, 22 lift loop (fast: per modulus),
+# 23 ntt_p(temp), 24 ntt_lazy_ps(ciphertext), 25 dyadic products, 26 intt_ps (FULL inverse transform); the last entry is 100 + sc.
+MEXP = "plain.significant_coeff_count() - 1"
+SK_MUL_PLAIN_NORMAL = {
+    "sig": "fn multiply_plain_normal(nonzero: usize, mono_upper: bool, fast_lift: bool, n: usize, k: usize, scheme: SchemeType, ok_own: bool, ok_prod: bool) -> Vec<usize>",
+    "prologue": "let mut plan = vec![]; let mut sc: usize = 0;", "epilogue": "plan.push(100 + sc); plan",
+    "handles": [CTXS, CTXS + ".parms()", CTXS + ".parms().coeff_modulus()", CTXS + ".plain_upper_half_threshold()", CTXS + ".plain_upper_half_increment()",
+                CTXS + ".small_ntt_tables()", "encrypted.size()", "plain.coeff_count()", MEXP],
+    "exprs": {CTXS + ".parms().coeff_modulus().len()": "k", CTXS + ".parms().poly_modulus_degree()": "n", "plain.nonzero_coeff_count()": "nonzero",
+              "plain.data_at(%s) >= %s.plain_upper_half_threshold()" % (MEXP, CTXS): "mono_upper",
+              CTXS + ".qualifiers().using_fast_plain_lift": "fast_lift", CTXS + ".parms().scheme()": "scheme", _scale_ok("encrypted", CTXS): SC_OK},
+    "effects": {"util::add_uint_u64(%s.plain_upper_half_increment(), plain.data_at(%s), &$t)" % (CTXS, MEXP): "plan.push(10);",
+                CTXS + ".rns_tool().base_q().decompose(&$t)": "plan.push(11);",
+                "polymod::negacyclic_multiply_mononomials_inplace_ps(encrypted.data_mut(), &$t, %s, encrypted.size(), $n, %s.parms().coeff_modulus())" % (MEXP, CTXS): "plan.push(12);",
+                "polymod::negacyclic_multiply_mononomial_inplace_ps(encrypted.data_mut(), plain.data_at(%s), %s, encrypted.size(), $n, %s.parms().coeff_modulus())" % (MEXP, MEXP, CTXS): "plan.push(13);",
+                "encrypted.set_scale(encrypted.scale() * plain.scale())": "sc = sc + 1;",
+                "for $i in 0..plain.coeff_count()": "plan.push(20);",
+                CTXS + ".rns_tool().base_q().decompose_array(&$t)": "plan.push(21);",
+                "for $i in 0..$k": "plan.push(22);",
+                "polymod::ntt_p(&$t, $n, %s.small_ntt_tables())" % CTXS: "plan.push(23);",
+                "polymod::ntt_lazy_ps(encrypted.data_mut(), encrypted.size(), $n, %s.small_ntt_tables())" % CTXS: "plan.push(24);",
+                "for $i in 0..encrypted.size()": "plan.push(25);",
+                "polymod::intt_ps(encrypted.data_mut(), encrypted.size(), $n, %s.small_ntt_tables())" % CTXS: "plan.push(26);"}}
+TABLE_EVALCT += [
+    {"file": EV, "fn": "multiply_plain_normal", "impl": "Evaluator", "lean": "ct_multiply_plain_normal_plan", "model": "multiplyPlainNormalPlan", "skeleton": SK_MUL_PLAIN_NORMAL,
+     "panic_escape": True},
+]
+for _n, _sp in FILES:
+    if _n == "EvalFns.lean" and "Heathcliff.Model.Scheme" not in _sp["imports"]: _sp["imports"] = _sp["imports"] + ["Heathcliff.Model.Scheme"]
+# ------------------------------------------------------------------------------------------------------------------------------------
 
 if __name__ == "__main__":
     res = gen_all(sys.argv[1])
